@@ -235,6 +235,46 @@ def main():
             compare(res, ("broadcast", lead, tn, (Ne, nPg, d)), f"broadcast lead={lead} tensor_ndim={tn}", got, want, True,
                     dict(shape=list(shape), Ne=Ne, nPg=nPg, tensor_ndim=tn, values=v.tolist()))
 
+    # ---------------- a per-element field (Ne, 1, ...) with a per-point field (1, nPg, ...) through the non-elementwise protocol paths ----------------
+    for (Ne_, nPg_, d_) in ((5, 4, 3), (3, 3, 3), (2, 3, 2), (4, 2, 2)):
+        ae = ints(rng, (Ne_, 1, d_, d_))
+        bp = ints(rng, (1, nPg_, d_, d_))
+        Ae, Bp = FeArray.asfearray(ae), FeArray.asfearray(bp)
+        mask = ints(rng, (Ne_, 1, d_, d_)) > 0
+        ops = [("fe", ae), ("fe", bp)]
+        forms = [("A_e @ B_p", lambda: Ae @ Bp, lambda x, y: x @ y, ops),
+                 ("np.matmul(A_e, B_p)", lambda: np.matmul(Ae, Bp), lambda x, y: x @ y, ops),
+                 ("np.einsum('...ij,...jk->...ik', A_e, B_p)", lambda: np.einsum("...ij,...jk->...ik", Ae, Bp), lambda x, y: x @ y, ops),
+                 ("np.einsum('...ij,...ij->...', A_e, B_p)", lambda: np.einsum("...ij,...ij->...", Ae, Bp), lambda x, y: np.sum(x * y), ops),
+                 ("np.where(mask_e, A_e, B_p)", lambda: np.where(FeArray.asfearray(mask), Ae, Bp), lambda m, x, y: np.where(m, x, y), [("fe", mask)] + ops),
+                 ("A_e + B_p", lambda: Ae + Bp, lambda x, y: x + y, ops)]
+        for name, fn, f, fops in forms:
+            ident = dict(op=name, Ne=Ne_, nPg=nPg_, d=d_, operands=describe(fops))
+            try:
+                got = fn()
+            except Exception as ex:  # noqa: BLE001
+                res.case(("elem-x-point", name, (Ne_, nPg_, d_)))
+                res.fail(f"per-element field with per-point field: {name} raises", f"raised {ex!r}", ident)
+                continue
+            compare(res, ("elem-x-point", name, (Ne_, nPg_, d_)), f"per-element field (Ne,1) with per-point field (1,nPg): {name}", got, loop(Ne_, nPg_, f, *fops), True, ident)
+
+    # ---------------- matrix products with the constant tensor on the LEFT (operator and function form), also when sizes coincide ----------------
+    for (Ne_, nPg_, d_) in ((4, 3, 2), (3, 2, 2), (2, 2, 2), (5, 3, 3), (1, 1, 3), (3, 3, 3), (2, 1, 2)):
+        for (r1, r2) in ((1, 1), (2, 1), (1, 2), (2, 2)):
+            c = ints(rng, tshape(r1, d_))
+            a = ints(rng, (Ne_, nPg_) + tshape(r2, d_))
+            A = FeArray.asfearray(a)
+            want = loop(Ne_, nPg_, lambda x, y: np.tensordot(x, y, axes=1), ("const", c), ("fe", a))
+            for form, fn in (("c @ A", lambda: c @ A), ("np.matmul(c, A)", lambda: np.matmul(c, A))):
+                ident = dict(op=form, Ne=Ne_, nPg=nPg_, d=d_, operands=describe([("const", c), ("fe", a)]))
+                try:
+                    got = fn()
+                except Exception as ex:  # noqa: BLE001
+                    res.case(("const-left", form, r1, r2, (Ne_, nPg_, d_)))
+                    res.fail(f"constant on the left of a matrix product ranks=({r1},{r2}) raises", f"{form}: raised {ex!r} where the per-point tensor operation is defined", ident)
+                    continue
+                compare(res, ("const-left", form, r1, r2, (Ne_, nPg_, d_)), f"constant on the left of a matrix product: {form} ranks ({r1},{r2})", got, want, True, ident)
+
     # ---------------- broadcast with a declared tensor rank when the sizes coincide (nPg == n, Ne == nPg == n) ----------------
     for (Ne_, nPg_, d_) in ((7, 3, 3), (3, 3, 3), (4, 6, 6), (6, 6, 6), (1, 3, 3), (3, 1, 3)):
         for tn in (1, 2):
@@ -297,4 +337,6 @@ def main():
 
 
 if __name__ == "__main__":
-    main()
+    from tools.harness._common import run
+
+    run(main)
